@@ -126,6 +126,18 @@ def _eq_atoms(hyps):
     return out
 
 
+def _identity_holds(lhs, rhs):
+    """unconditional polynomial identity lhs == rhs, decided by z3 (normalisation first, solver second)"""
+    from .core import guarded_check
+    d = z3.simplify(lhs - rhs, som=True)
+    if z3.is_rational_value(d):
+        return d.numerator_as_long() == 0
+    s = z3.Solver()
+    s.set('timeout', 5000)
+    s.add(lhs != rhs)
+    return guarded_check(s, 5000) == z3.unsat
+
+
 def cert_prove(hyps, goal, budget_s=20.0):
     """try to prove an equality goal (or a conjunction of equalities) by an ideal-membership certificate.
     returns (True, info) when z3 accepted the certificate, else (False, reason)"""
@@ -186,10 +198,7 @@ def cert_prove(hyps, goal, budget_s=20.0):
         ident = (g.arg(0) - g.arg(1)) == hz
         # division symbols stand for the z3 division terms themselves, so the identity is over the same atoms;
         # the hypotheses d*b == a and iv*b == 1 used for them hold because b != 0 is a safety obligation of the path
-        s = z3.Solver()
-        s.set('timeout', 20000)
-        s.add(z3.Not(ident))
-        if s.check() != z3.unsat:
+        if not _identity_holds(g.arg(0) - g.arg(1), hz):
             return False, 'solver did not accept the certificate identity'
     return True, dict(secs=time.time() - t0, hyps=len(G))
 
